@@ -53,6 +53,8 @@ Do(name, e) ==
     [] name = "PushFail"  -> PushFail(e.x) /\ PushRest
     [] name = "PushEnd"   -> PushEnd(e.x) /\ PushRest
     [] name = "Sweep"     -> Sweep
+    [] name = "KeepAlive" -> KeepAlive(e.x)
+    [] name = "Describe"  -> Describe
 
 \* C03 StatOnlyAttached: the stat API lists exactly the attached network / GB28181 input and the attached subscribers
 Listed(i, s) == (IF i \in NetPubs \cup PsPubs THEN {i} ELSE {}) \cup {x \in Subs : s[x] = "in"}
